@@ -99,6 +99,15 @@ CHECKS['C06'] = dict(
     design_ref='DESIGN.md 4/C06',
     note='Trusted: MIR = code; io stubs; std builtins; oracle predicates. Outside: recursive constraints, func/module shapes as exemplars, symbolic float bounds; constraints on tuple fields / function and module parameters (the property speaks of let bindings).',
     technique='symbolic execution of the binary crate\'s MIR with symbolic bounds/values; z3 validity of build-succeeds <=> conforms per path; replay with the real binary (bounded: forms, shape grammar)')
+CHECKS['C17'] = dict(
+    category='model_checking',
+    text='Multi-line programs with exactly one injected fault (12 run-time fault kinds incl. a symbolic out-of-range index and a symbolic zero divisor, 7 syntax faults) at every statement position and nesting slot '
+         '(direct, tuple field, list element, call argument, select arm, binary operand, function body called from another statement) are run through the real parser, translator and VM from MIR. Per path: '
+         'the error\'s primary line lies inside the faulting statement\'s source span; a fault in a function body lists a position of the calling statement in its call stack; and inserting unrelated statements '
+         'before moves the reported line by exactly the number of inserted lines (same column).',
+    design_ref='DESIGN.md 4/C17',
+    note='Trusted: MIR = code; std builtins. Outside: rendered diagnostic text, multi-file VIA chains, errors reported only by the static checker, columns inside multi-line statements.',
+    technique='symbolic execution of rustc MIR on fault-injected programs; span/call-stack/shift obligations decided per path; native replay (bounded: fault kinds x slots x positions)')
 NOT_APPLICABLE = {
 }
 ALL = ['C%02d' % i for i in range(1, 21)]
